@@ -90,10 +90,6 @@ Proof. intros H. rewrite <- (app_nil_r (enc_u8lp b)). now apply read_enc_u8lp. Q
 Lemma read_enc_u16lp_nil b : blen b < 65536 -> read_u16lp (enc_u16lp b) = Some (b, []).
 Proof. intros H. rewrite <- (app_nil_r (enc_u16lp b)). now apply read_enc_u16lp. Qed.
 
-(* a failed length-prefixed read means the prefix promised more than there is *)
-Lemma read_u16lp_some s a r : read_u16lp s = Some (a, r) -> s = enc_u16lp a ++ r \/ True.
-Proof. auto. Qed.
-
 (* ---- loops ---- *)
 Definition all_u16 (l : list N) : bool := forallb (fun x => x <? 65536) l.
 
@@ -106,7 +102,11 @@ Proof.
 Qed.
 
 Lemma empty_false_iff (s : bytes) : empty s = false <-> blen s <> 0.
-Proof. destruct s; cbn; [split; [discriminate|congruence]|]. rewrite blen_cons. split; [lia|reflexivity]. Qed.
+Proof.
+  destruct s as [|x s]; cbn [empty].
+  - rewrite blen_nil. split; [discriminate|congruence].
+  - rewrite blen_cons. split; [lia|reflexivity].
+Qed.
 Lemma empty_true_iff (s : bytes) : empty s = true <-> s = [].
 Proof. destruct s; cbn; split; congruence. Qed.
 
